@@ -1049,6 +1049,16 @@ class Engine:
             else:
                 caller.idx += 1
 
+    def complete_call(self, s, ins, val):
+        """finish a call/invoke instruction in state s (used by builtins that fork)"""
+        f2 = s.frames[-1]
+        if ins.res is not None:
+            f2.regs[ins.res] = val
+        if ins.op == 'invoke':
+            self.jump(s, f2, ins.extra[0])
+        else:
+            f2.idx += 1
+
     def unwind(self, st):
         """propagate st.exc: find the innermost invoke whose landing pad accepts; returns JUMP or raises PathEnd"""
         while st.frames:
